@@ -6,9 +6,29 @@ from typing import Callable, Dict, Optional, Set
 
 from .flow import ANY_EXC, CANCEL
 from .model import FuncInfo, Project, call_name
-from .paths import PState, PathAnalysis, calls_in_order, is_benign_call, is_list_total, is_mapping_get, is_sequence_op, list_names, mapping_names, run_paths
+from .paths import PState, PathAnalysis, calls_in_order, is_benign_call, is_list_total, is_mapping_get, is_mapping_get_here, is_sequence_op, list_names, mapping_names, run_paths
 
 _CONTAINED: Dict[str, bool] = {}
+
+
+def plain_record_construction(P: Project, f: FuncInfo, c: ast.Call) -> bool:
+    """`cls(k=v, …)` in a classmethod / `Record(k=v, …)`: building a package dataclass that has no __post_init__ and no
+    hand-written __init__ — with keywords naming its fields this only stores the values."""
+    ci = None
+    if isinstance(c.func, ast.Name) and c.func.id == "cls" and f.cls is not None:
+        ci = f.cls
+    elif isinstance(c.func, ast.Name):
+        kind, obj = P.resolve_name(f.module.name, c.func.id)
+        if kind == "class":
+            ci = obj
+    if ci is None or c.args or any(k.arg is None for k in c.keywords):
+        return False
+    if not any(ast.unparse(d.func if isinstance(d, ast.Call) else d).split(".")[-1] == "dataclass" for d in ci.node.decorator_list):
+        return False
+    if any(isinstance(x, (ast.FunctionDef, ast.AsyncFunctionDef)) and x.name in ("__post_init__", "__init__", "__new__", "__setattr__") for x in ci.node.body):
+        return False
+    fields = {x.target.id for x in ci.node.body if isinstance(x, ast.AnnAssign) and isinstance(x.target, ast.Name)}
+    return all(k.arg in fields for k in c.keywords)
 
 
 def contained(P: Project, f: FuncInfo, depth: int = 0) -> bool:
@@ -29,7 +49,7 @@ def contained(P: Project, f: FuncInfo, depth: int = 0) -> bool:
         hv = tuple(h.name for h in an.handler_stack if h.name)
         truthy = {n_ for n_ in lists if (st.term(n_) or n_) in st.lits or n_ in st.lits} if lists else ()
         for c in calls_in_order(node):
-            if is_benign_call(c, hv) or is_mapping_get(c, maps) or (lists and is_list_total(c, lists, truthy)) or is_sequence_op(c, st):
+            if is_benign_call(c, hv) or is_mapping_get(c, maps) or (lists and is_list_total(c, lists, truthy)) or is_sequence_op(c, st) or is_mapping_get_here(c, st) or plain_record_construction(P, f, c):
                 continue
             if depth < 3:
                 g = P.resolve_call(f, c)
@@ -58,7 +78,7 @@ def fallible_except_contained(P: Project, f: FuncInfo, extra_total: Optional[Cal
         hv = tuple(h.name for h in an.handler_stack if h.name)
         truthy = {n_ for n_ in lists if (st.term(n_) or n_) in st.lits or n_ in st.lits} if lists else ()
         for c in calls_in_order(node):
-            if is_benign_call(c, hv) or is_mapping_get(c, maps) or (lists and is_list_total(c, lists, truthy)) or is_sequence_op(c, st):
+            if is_benign_call(c, hv) or is_mapping_get(c, maps) or (lists and is_list_total(c, lists, truthy)) or is_sequence_op(c, st) or is_mapping_get_here(c, st):
                 continue
             if extra_total is not None and extra_total(c):
                 continue
